@@ -45,3 +45,17 @@ Print Assumptions C08_accept_once.
 Theorem C08_initial_last_seen : GTgen.Params.last_seen0 = -1.
 Proof. exact last_seen_starts_below_zero. Qed.
 Print Assumptions C08_initial_last_seen.
+
+(* code shape, regenerated from the source on every run (see theories/SkelNewStream.v) *)
+From Coq Require Import String.
+From GT Require Import SkelNewStream.
+From GTgen Require Import Params.
+Local Open Scope string_scope.
+Theorem C08_new_stream_shape : skel_tunnelChannel_newStream =
+  ["call streamCreation.Lock"; "defer call streamCreation.Unlock"; "call allocateStream"; "call stream.Send"; "call removeStream"; "go func"].
+Proof. exact tunnelChannel_newStream_shape. Qed.
+Print Assumptions C08_new_stream_shape.
+Theorem C08_allocate_shape : skel_tunnelChannel_allocateStream =
+  ["call mu.Lock"; "defer call mu.Unlock"; "set streamCreated"; "set lastStreamID"; "set streams"].
+Proof. exact tunnelChannel_allocateStream_shape. Qed.
+Print Assumptions C08_allocate_shape.
